@@ -82,8 +82,13 @@ def val_program(tape):
             c = t.choice(INT_EDGES, "int.c")
             e = f"Uniform({a}, {b}, {c})"
         elif k == 1:
-            lo = t.choice(INT_EDGES[:14], "rng.lo")
-            e = f"DiscreteRange({lo}, {lo + t.intrange(0, 70000, 'rng.len')})"
+            # an int that is stored by value, within +-1 of a codec width boundary
+            # (or, sometimes, a wide range)
+            edge = t.choice(INT_EDGES[:14], "rng.edge")
+            if t.chance(1, 4, "rng.wide"):
+                e = f"DiscreteRange({edge}, {edge + t.intrange(0, 70000, 'rng.len')})"
+            else:
+                e = f"DiscreteRange({edge - t.draw(2, 'rng.below')}, {edge + t.draw(2, 'rng.above')})"
         elif k == 2:
             e = f"Range({t.intrange(-5, 5, 'r.lo')}, {t.intrange(6, 9, 'r.hi')})"
         elif k == 3:
@@ -239,6 +244,26 @@ def scene_part(tape, stats, violations, digest):
                                "detail": {"program": src, "seed": seed, "offset": off, "mask": str(m), "result": str(res),
                                           "encoded_hex": data.hex()[:400], "finding": None}})
             break
+    # (i') round trip of a scene sampled after the scenario was conditioned on part of an
+    # earlier scene (a multi-step history of the same Scenario object)
+    if "new Object" in src and "mutate" not in src and tape.chance(1, 2, "conditionOn?"):
+        try:
+            scenario.conditionOn(scene=scene, objects=(0,))
+            random.seed(seed + 1)
+            numpy.random.seed(seed + 1)
+            sceneB, _ = scenario.generate(maxIterations=200, verbosity=0)
+            dataB = scenario.sceneToBytes(sceneB)
+        except Exception as e:  # noqa: BLE001 - conditioning itself is not under test
+            stats["conditionOn:unusable:" + type(e).__name__] = 1
+        else:
+            stats["conditioned_roundtrips"] = 1
+            kind, res = decode(scenario, dataB)
+            refB = c14.dump_scene(sceneB, 0)
+            if kind != "ok" or c14.dump_scene(res, 0) != refB:
+                diff = c14.first_diff(refB, c14.dump_scene(res, 0)) if kind == "ok" else [kind, str(res)]
+                violations.append({"clause": "roundtrip-after-conditioning-differs", "detail": {
+                    "program": src, "seed": seed, "result": diff, "finding": None}})
+        scenario = scenic.scenarioFromString(src)  # drop the conditioning again
     # (ii) foreign program / foreign options
     src2 = src + "param zz_extra = 1\n"
     sc2 = scenic.scenarioFromString(src2)
@@ -255,7 +280,7 @@ def scene_part(tape, stats, violations, digest):
 # ---------------------------------------------------------------------------
 # simulation replay
 # ---------------------------------------------------------------------------
-FEAT = dict(c19.FEAT, p_guards=2, w_choose=4, w_shuffle=4, w_draw=5, max_steps=(3, 7))
+FEAT = dict(c19.FEAT, p_guards=2, w_choose=4, w_shuffle=4, w_draw=5, max_steps=(3, 7), draw_edges=True)
 TAU = 0.5
 
 
@@ -317,6 +342,17 @@ def replay_part(tape, stats, violations, digest):
             "program": src, "seed": seed, "diff": c14.first_diff(d1, sim_digest(o2)),
             "replay_outcome": {k: v for k, v in o2.items() if k in ("kind", "exc", "msg", "where", "time")}}})
         return sample
+    # second generation: the replayed simulation is itself encoded and replayed
+    rep2 = o2["sim"].getReplay()
+    o4 = simulate(replay=rep2, rng_seed=seed + 2000)
+    stats["second_generation_replays"] = 1
+    if o4["kind"] == "exception" or sim_digest(o4) != d1:
+        violations.append({"clause": "replay-of-replay-differs", "detail": {
+            "program": src, "seed": seed, "diff": c14.first_diff(d1, sim_digest(o4)),
+            "replay_lengths": [len(rep), len(rep2)],
+            "replay_outcome": {k: v for k, v in o4.items() if k in ("kind", "exc", "msg", "where", "time")}}})
+        return sample
+    o4.pop("sim", None)
     # divergence: perturb one dynamic property at one step of the replay
     if o1["time"] >= 1:
         step = tape.intrange(1, o1["time"], "perturb.step")
